@@ -1,24 +1,30 @@
 #!/bin/sh
-# usage: seed_matrix.sh [names...] : for every seeded change apply it to /repo, run the quick check of its property
-# (and of the properties listed in meta "also"), undo; appends one line per run to seeded/MATRIX.txt
+# usage: seed_matrix.sh [names...] : for every seeded change, apply it to a scratch worktree of /repo (never to /repo
+# itself), run the quick check of its property (and of the properties listed in meta "also") against that worktree,
+# undo; appends one line per run to seeded/MATRIX.txt.  Scratch: /tmp/mxrepo (removed at the end).
 cd /verif || exit 2
 names="$@"; [ -z "$names" ] && names=$(ls seeded | grep -E '^(C[0-9]+[ab]|fixrev_)')
+rm -rf /tmp/mxrepo; git -C /repo worktree prune; git -C /repo worktree add -q --detach /tmp/mxrepo HEAD || exit 2
+export XEOFS_REPO=/tmp/mxrepo VERIF_WORK=/tmp/mx_work VERIF_EVIDENCE_DIR=/tmp/mx_evid VERIF_REPLAYS_DIR=/tmp/mx_replays
 for n in $names; do
   d=seeded/$n
   [ -f $d/patch.diff ] || continue
   props=$(/venv/bin/python -c "
-import json,sys,os
+import json,os
 p='$d/meta.json'
 m=json.load(open(p)) if os.path.exists(p) else {}
 ps=[m.get('property')] if m.get('property') else []
 ps+=m.get('also',[])
 print(' '.join(ps))")
   [ -z "$props" ] && continue
-  if ! git -C /repo apply --check $PWD/$d/patch.diff 2>/dev/null; then echo "$n: PATCH DOES NOT APPLY" | tee -a seeded/MATRIX.txt; continue; fi
-  git -C /repo apply $PWD/$d/patch.diff
+  if ! git -C /tmp/mxrepo apply --check $PWD/$d/patch.diff 2>/dev/null; then echo "$n: PATCH DOES NOT APPLY" | tee -a seeded/MATRIX.txt; continue; fi
+  git -C /tmp/mxrepo apply $PWD/$d/patch.diff
   for id in $props; do
     ./check $id --tier quick > /tmp/mx_${n}_$id.log 2>&1; rc=$?
-    echo "$n $id rc=$rc $(grep -c '^VIOLATION' /tmp/mx_${n}_$id.log) | $(grep -m1 '^VIOLATION' /tmp/mx_${n}_$id.log | sed 's/.*\] //' | cut -c1-160)" | tee -a seeded/MATRIX.txt
+    echo "$n $id rc=$rc $(grep -c '^VIOLATION' /tmp/mx_${n}_$id.log) | $(grep -m1 '^VIOLATION' /tmp/mx_${n}_$id.log | sed 's/^VIOLATION property=[A-Z0-9]* replay=[^ ]* *//' | cut -c1-170)" | tee -a seeded/MATRIX.txt
   done
-  git -C /repo checkout -- .
+  git -C /tmp/mxrepo checkout -q -- .
+  git -C /tmp/mxrepo clean -fdq
 done
+git -C /repo worktree remove --force /tmp/mxrepo
+rm -rf /tmp/mx_work /tmp/mx_evid /tmp/mx_replays
